@@ -398,7 +398,7 @@ fn key_examine(key: u64) -> Result<(), String> {
 }
 
 fn keys(run: &mut Run) -> PResult {
-    let total: u64 = if run.tier == Tier::Thorough { 1 << 32 } else { 1 << 30 };
+    let total: u64 = (1u64 << 32) + (1 << 21);
     let acc = par_range::<AK>(total, 1 << 20, || AK { n: 0, absent: 0, fail: None }, |acc, lo, hi| {
         // fast: one guard per chunk, then locate
         let r = guard(|| {
@@ -421,9 +421,9 @@ fn keys(run: &mut Run) -> PResult {
         true
     });
     run.generator(
-        &format!("find_in_products: every key 0..2^{}", if run.tier == Tier::Thorough { 32 } else { 30 }),
+        "find_in_products: every key 0..2^32 (and 2^21 beyond)",
         "exhaustive",
-        Some(1 << 32),
+        Some((1u64 << 32) + (1 << 21)),
         acc.n,
         acc.n.saturating_sub(4888),
         "cases = keys; non-trivial = keys that are not one of the 4,888 table products (the not-found path); the product of five 6-bit fields always fits 32 bits",
@@ -562,16 +562,18 @@ fn run_profile(run: &mut Run) -> PResult {
         })?;
     }
     sequences(run)?;
+    // the key scan comes first: it also takes the number of product searches made in this process past
+    // 2^32 before the hands are ranked (behaviour that depends on a call count)
+    keys(run)?;
     multisets::<5, F5>(run, 1)?;
     multisets::<6, F6>(run, 1)?;
     multisets::<7, F7>(run, if thorough { 1 } else { 16 })?;
     ordered_fives(run)?;
-    keys(run)?;
     Ok(())
 }
 
 pub fn run(run: &mut Run) -> PResult {
-    run.rule = "alphabet = 52 model cards + blank, repetition allowed: every multiset of 5 and 6 slots, (quick: seeded 1-in-16 stratum of / thorough: every) multiset of 7 slots, each in ascending, descending and one seeded slot order; every ordered 5-slot array (53^5); every key below 2^30 (thorough 2^32) and structured 64-bit keys for Five::find_in_products; all five ranking entry points per hand; both build profiles (checked = overflow checks + debug assertions, unchecked = neither). Oracle: normal return everywhere; five slots with a blank => value 0 and Invalid name/class; hands of distinct real cards => model ordinal. Non-trivial = hand contains a blank or a repeated card / key not in the product table; distinct = distinct multisets (arrays, keys)".into();
+    run.rule = "alphabet = 52 model cards + blank, repetition allowed: every multiset of 5 and 6 slots, (quick: seeded 1-in-16 stratum of / thorough: every) multiset of 7 slots, each in ascending, descending and one seeded slot order; every ordered 5-slot array (53^5); every key below 2^32 (+2^21, which also counts the searches of one process past 2^32 before any hand is ranked) and structured 64-bit keys for Five::find_in_products; all five ranking entry points per hand; both build profiles (checked = overflow checks + debug assertions, unchecked = neither). Oracle: normal return everywhere; five slots with a blank => value 0 and Invalid name/class; hands of distinct real cards => model ordinal. Non-trivial = hand contains a blank or a repeated card / key not in the product table; distinct = distinct multisets (arrays, keys)".into();
     run.assume("opt-level 0 is assumed equivalent to the two opt-level-3 profiles executed (ckc-rs has no cfg(debug_assertions) code)");
     run.assume("no value is asserted for six/seven-slot hands containing blanks or for hands with repeated cards: the property only demands a normal return there");
     run.assume("non-termination cannot be decided by testing: a hang is reported as INCONCLUSIVE (exit 2) by the watchdog");
@@ -583,7 +585,7 @@ pub fn run(run: &mut Run) -> PResult {
         return Ok(());
     }
     run.exhaustive = thorough_all(run.tier);
-    run.exhaustive_note = if run.exhaustive { "all multisets of 5/6/7 slots, all 53^5 ordered five-slot arrays, all 2^32 keys, in both build profiles".into() } else { "complete except: seven-slot multisets are a seeded 1-in-16 stratum, ordered five-slot arrays of five distinct cards are left to C01, and keys stop at 2^30 (thorough closes both)".into() };
+    run.exhaustive_note = if run.exhaustive { "all multisets of 5/6/7 slots, all 53^5 ordered five-slot arrays, all 2^32 keys, in both build profiles".into() } else { "complete except: seven-slot multisets are a seeded 1-in-16 stratum, ordered five-slot arrays of five distinct cards are left to C01 (thorough closes both)".into() };
     Ok(())
 }
 
